@@ -18,9 +18,9 @@ inductive Phase
   | start
   /-- the file header of the current sequence was read (by `PeekFileHeader` or `Next`) -/
   | header
-  /-- `PeekFileId` succeeded: `delivered` listener calls were made for the current sequence; `lost` = the peek
-  consumed bytes beyond the data window the header declares (what `Discard` leaves is then not comparable with a
-  fresh decoder's) -/
+  /-- `PeekFileId` succeeded: `delivered` listener calls were made for the current sequence; `lost` = the last record the
+  peek decoded overran the data window the header declares (a malformed sequence; what `Discard` leaves is then not
+  comparable with a fresh decoder's) -/
   | fileId (delivered : Nat) (lost : Bool)
   /-- a peek (or the header read of `Next`) failed on the current sequence: the error is sticky (C03) for everything
   but the demanded result of `Decode`, which stays what a fresh decoder returns for the sequence -/
@@ -59,6 +59,32 @@ def specDecode (p : Spec) (k : Nat) (sticky : Option Err) : Spec × Option (Out 
     | none, _ => p
   (p', some (out, evs.drop k))
 
+/-- `DecodeWithContext` whose context is first seen cancelled after `k` records **of the sequence** (`d` listener
+calls were already made for it by a peek): the demanded result is that of the same call on a new decoder -/
+def specDecodeAt (p : Spec) (d k : Nat) : Spec × Option (Out × List Event) :=
+  let (s', out, evs) := stepDecodeCtxAt k p.st
+  let p' := match out with
+    | .fit _ => p.advance s'.rest
+    | .err e => { p with ph := .dead e }
+    | _ => p
+  (p', some (out, evs.drop d))
+
+/-- the number of records `PeekFileId`'s loop decodes -/
+def peekCount : Nat → St → Nat
+  | 0, _ => 0
+  | fuel + 1, s =>
+    if s.q.fileId.isNone ∧ s.q.cur < s.q.hdr.dataSize then
+      match decodeMessage s with
+      | .ok (s', _) => peekCount fuel s' + 1
+      | _ => 0
+    else 0
+
+/-- the number of records a successful `PeekFileId` of a new decoder on the current sequence decodes -/
+def Spec.peeked (p : Spec) : Nat :=
+  match headerOnce p.st with
+  | .ok s1 => peekCount (fuelOf s1) s1
+  | _ => 0
+
 def specPeekHeader (p : Spec) : Spec × Out :=
   let (_, out, _) := stepPeekHeader p.st
   (match out with
@@ -90,6 +116,12 @@ def specStep (p : Spec) (op : Op) : Spec × Option (Out × List Event) :=
   | .decode, .peekFailed e k | .decodeCtx false, .peekFailed e k => specDecode p k (some e)
   | .decodeCtx true, .peekFailed e _ => ({ p with ph := .dead e }, some (.err e, []))
   | .decodeCtx true, _ => ({ p with ph := .dead .ctx }, some (.err .ctx, []))
+  -- DecodeWithContext, context cancelled while the call runs: a cancellation after `k` more records following a peek
+  -- of `j` records is a cancellation after `j + k` records of the sequence
+  | .decodeCtxAt _, .dead e => (p, some (.err e, []))
+  | .decodeCtxAt k, .start | .decodeCtxAt k, .header => specDecodeAt p 0 k
+  | .decodeCtxAt k, .fileId d _ => specDecodeAt p d (p.peeked + k)
+  | .decodeCtxAt _, .peekFailed e _ => ({ p with ph := .dead e }, some (.err e, []))
   -- peeks
   | .peekHeader, .dead e | .peekHeader, .peekFailed e _ | .peekFileId, .dead e | .peekFileId, .peekFailed e _ =>
     (p, some (.err e, []))
@@ -119,33 +151,8 @@ def specRun : Spec → List Op → List (Option (Out × List Event))
     let (p', r) := specStep p op
     r :: specRun p' ops
 
-/-! ### known-finding classes (evaluated on the model's run) -/
+/-! ### known-finding classes (evaluated on the model's run): none is open (F08, F09, F10 are repaired in /repo) -/
 
-/-- `PeekFileId` attempts to read a record although the data window of the header is exhausted -/
-def peekPast : Nat → St → Bool
-  | 0, _ => false
-  | fuel + 1, s =>
-    if s.q.fileId.isNone then
-      decide (s.q.cur ≥ s.q.hdr.dataSize) ||
-        (match decodeMessage s with
-         | .ok (s', _) => peekPast fuel s'
-         | _ => false)
-    else false
-
-/-- F09: the operation is a `PeekFileId` that reads past the sequence -/
-def kfPeekPast (a : Api) : Op → Bool
-  | .peekFileId =>
-    a.d.q.err.isNone &&
-      (match headerOnce a.d with
-       | .ok s1 => peekPast (fuelOf s1) s1
-       | _ => false)
-  | _ => false
-
-def kfRun (_p : Spec) : Api → List Op → List String
-  | _, [] => []
-  | a, op :: ops =>
-    let here := if kfPeekPast a op then ["KF-C07-2"] else []
-    let rest := kfRun _p (step a op).1 ops
-    (here ++ rest).eraseDups
+def kfRun (_p : Spec) (_a : Api) (_ops : List Op) : List String := []
 
 end Fit.DecApi
